@@ -649,7 +649,75 @@ func (s *PathSearch) search(firstOnly bool) []Reached {
 		b    *ssa.BasicBlock
 		from *ssa.BasicBlock
 		st   boolState
+		cst  map[*ssa.Phi]int // constant-valued flags: index of the constant the variable holds
 		prev *step
+	}
+	// variables that only ever hold one of a few constants (`action := ""; … action = "Lock"`): flags with several values
+	var cflags []*ssa.Phi
+	cvals := map[*ssa.Phi][]constant.Value{}
+	cphisOf := map[*ssa.BasicBlock][]*ssa.Phi{}
+	for _, b := range s.Fn.Blocks {
+		for _, in := range b.Instrs {
+			ph, ok := in.(*ssa.Phi)
+			if !ok {
+				break
+			}
+			if vals := constFlagValues(ph); vals != nil && len(cflags) < 8 {
+				cflags = append(cflags, ph)
+				cvals[ph] = vals
+				cphisOf[b] = append(cphisOf[b], ph)
+			}
+		}
+	}
+	ckey := func(m map[*ssa.Phi]int) string {
+		if len(cflags) == 0 {
+			return ""
+		}
+		bs := make([]byte, len(cflags))
+		for i, ph := range cflags {
+			if v, ok := m[ph]; ok {
+				bs[i] = byte('a' + v)
+			} else {
+				bs[i] = '?'
+			}
+		}
+		return "|" + string(bs)
+	}
+	cindex := func(ph *ssa.Phi, c *ssa.Const) int {
+		for i, v := range cvals[ph] {
+			if c.Value != nil && constant.Compare(v, token.EQL, c.Value) {
+				return i
+			}
+		}
+		return -1
+	}
+	// a branch that compares a constant-valued flag with a constant: (flag, index of the constant, condition true means equal)
+	cflagOfCond := func(c ssa.Value) (*ssa.Phi, int, bool) {
+		eq := true
+		for {
+			if u, ok := c.(*ssa.UnOp); ok && u.Op == token.NOT {
+				c, eq = u.X, !eq
+				continue
+			}
+			break
+		}
+		bo, ok := c.(*ssa.BinOp)
+		if !ok || (bo.Op != token.EQL && bo.Op != token.NEQ) {
+			return nil, 0, false
+		}
+		if bo.Op == token.NEQ {
+			eq = !eq
+		}
+		x, y := bo.X, bo.Y
+		if _, isC := x.(*ssa.Const); isC {
+			x, y = y, x
+		}
+		ph, isPh := x.(*ssa.Phi)
+		k, isC := y.(*ssa.Const)
+		if !isPh || !isC || cvals[ph] == nil {
+			return nil, 0, false
+		}
+		return ph, cindex(ph, k), eq
 	}
 	type vkey struct {
 		b, from *ssa.BasicBlock
@@ -792,12 +860,63 @@ func (s *PathSearch) search(firstOnly bool) []Reached {
 			if boolPhiCond(succ) != nil {
 				from = cur.b
 			}
-			vk := vkey{succ, from, st.key(tracked)}
+			// constant-valued flags: a branch on one is taken only the way its value allows, and assigns it when unknown
+			cst := cur.cst
+			if iff, ok := cur.b.Instrs[len(cur.b.Instrs)-1].(*ssa.If); ok && len(cur.b.Succs) == 2 && len(cflags) > 0 {
+				if cph, idx, eq := cflagOfCond(iff.Cond); cph != nil {
+					takenEq := (i == 0) == eq
+					if v, known := cur.cst[cph]; known {
+						if (v == idx) != takenEq {
+							continue
+						}
+					} else if takenEq {
+						if idx < 0 {
+							continue
+						}
+						cst = map[*ssa.Phi]int{}
+						for k, v := range cur.cst {
+							cst[k] = v
+						}
+						cst[cph] = idx
+					}
+				}
+			}
+			if cphs := cphisOf[succ]; len(cphs) > 0 {
+				base := cst
+				cst = map[*ssa.Phi]int{}
+				for k, v := range base {
+					cst[k] = v
+				}
+				for _, ph := range cphs {
+					delete(cst, ph)
+					for k, p := range succ.Preds {
+						if p != cur.b {
+							continue
+						}
+						switch e := ph.Edges[k].(type) {
+						case *ssa.Const:
+							if idx := cindex(ph, e); idx >= 0 {
+								cst[ph] = idx
+							}
+						case *ssa.Phi:
+							if v, known := base[e]; known && cvals[e] != nil {
+								for j, cv := range cvals[ph] {
+									if constant.Compare(cv, token.EQL, cvals[e][v]) {
+										cst[ph] = j
+									}
+								}
+							}
+						}
+						break
+					}
+				}
+			}
+			vk := vkey{succ, from, st.key(tracked) + ckey(cst)}
 			if visited[vk] {
 				continue
 			}
 			visited[vk] = true
-			nx := &step{b: succ, from: from, st: st, prev: cur}
+			nx := &step{b: succ, from: from, st: st, cst: cst, prev: cur}
 			t, blocked := scan(succ, 0)
 			if t != nil {
 				emit(t, nx)
